@@ -5,6 +5,7 @@ import (
 	"bytes"
 	"fmt"
 	"io"
+	"net"
 	"os"
 	"os/exec"
 	"strings"
@@ -28,12 +29,12 @@ type CaseSpec struct {
 }
 
 type CaseRun struct {
-	Spec  *CaseSpec
-	World *World
-	Log   *Log
-	cmd   *exec.Cmd
-	nTx   int32
-	injMu sync.Mutex
+	Spec   *CaseSpec
+	World  *World
+	Log    *Log
+	cmd    *exec.Cmd
+	nTx    int32
+	injMu  sync.Mutex
 	health *healthTicker
 }
 
@@ -142,7 +143,14 @@ func RunCase(sx string, spec *CaseSpec) (res *CaseResult) {
 	c := &CaseRun{Spec: spec, World: w, Log: log}
 	var sniffers []*Sniffer
 	for _, name := range spec.Sniff {
-		if d := w.Dev(name); d != nil {
+		d := w.Dev(name)
+		if d == nil {
+			// an interface that exists without being created here (lo): sniff only
+			if ifi, err := net.InterfaceByName(name); err == nil {
+				d = &Dev{Name: name, Index: ifi.Index}
+			}
+		}
+		if d != nil {
 			s, err := newSniffer(d, log)
 			if err != nil {
 				res.SetupErr = "sniffer: " + err.Error()
